@@ -39,12 +39,26 @@ import (
 // ---------------------------------------------------------------------------
 // scripted checker
 
+const (
+	symTimeoutCtx  = 3 // check blocks until the filter's deadline, then returns the context error
+	symTimeoutLate = 4 // check blocks past the deadline and then answers OK
+
+	shortTimeout   = 100 * time.Millisecond // FilterConfig.Timeout of the timeout histories
+	ambiguousAfter = 40 * time.Millisecond  // watchdog for immediate answers in those histories
+)
+
 type scriptChecker struct {
-	mu      sync.Mutex
-	fail    map[string]bool
-	checked map[string]int
-	fails   map[string]int // cumulative, for the Monitor smoke
-	passes  map[string]int
+	mu   sync.Mutex
+	slow map[string]uint8 // hosts whose check times out in this round (symTimeout*)
+	// timeout histories only
+	roundStart  time.Time
+	ambiguous   bool
+	lateRelease chan struct{}
+	lateWG      *sync.WaitGroup
+	fail        map[string]bool
+	checked     map[string]int
+	fails       map[string]int // cumulative, for the Monitor smoke
+	passes      map[string]int
 }
 
 func newChecker() *scriptChecker {
@@ -53,15 +67,36 @@ func newChecker() *scriptChecker {
 
 var errScripted = errors.New("scripted health check failure")
 
-func (c *scriptChecker) Check(_ context.Context, addr string) error {
+func (c *scriptChecker) Check(ctx context.Context, addr string) error {
 	c.mu.Lock()
-	defer c.mu.Unlock()
 	c.checked[addr]++
-	if c.fail[addr] {
-		c.fails[addr]++
-		return errScripted
+	slow := c.slow[addr]
+	release, lateWG := c.lateRelease, c.lateWG
+	if slow == symTimeoutLate {
+		lateWG.Add(1) // before Run can return: Run waits for this check's deadline
 	}
-	c.passes[addr]++
+	if slow == 0 {
+		defer c.mu.Unlock()
+		if !c.roundStart.IsZero() && time.Since(c.roundStart) > ambiguousAfter {
+			c.ambiguous = true // the filter's deadline may have raced this immediate answer
+		}
+		if c.fail[addr] {
+			c.fails[addr]++
+			return errScripted
+		}
+		c.passes[addr]++
+		return nil
+	}
+	c.mu.Unlock()
+	// a check that exceeds FilterConfig.Timeout
+	<-ctx.Done()
+	if slow == symTimeoutCtx {
+		return ctx.Err() // honours the context
+	}
+	// ignores the context: answers OK, but only after the filter gave up on it
+	// (the harness releases it once Run has returned)
+	defer lateWG.Done()
+	<-release
 	return nil
 }
 
@@ -69,7 +104,18 @@ func (c *scriptChecker) Check(_ context.Context, addr string) error {
 func (c *scriptChecker) arm(fail map[string]bool) {
 	c.mu.Lock()
 	c.fail = fail
+	c.slow = nil
 	c.checked = map[string]int{}
+	c.mu.Unlock()
+}
+
+// armSlow additionally scripts checks that exceed the filter's timeout.
+func (c *scriptChecker) armSlow(slow map[string]uint8) {
+	c.mu.Lock()
+	c.slow = slow
+	c.roundStart = time.Now()
+	c.lateRelease = make(chan struct{})
+	c.lateWG = &sync.WaitGroup{}
 	c.mu.Unlock()
 }
 
@@ -189,6 +235,9 @@ type history struct {
 	passes int
 	hosts  []string
 	rounds [][]uint8 // [round][host] -> sym
+	// timeouts: the filter gets a short real per-check timeout and symbols 3/4
+	// (check exceeds it) may occur
+	timeouts bool
 }
 
 func (h *history) render() []string {
@@ -196,7 +245,7 @@ func (h *history) render() []string {
 	for i, rd := range h.rounds {
 		var parts []string
 		for j, s := range rd {
-			parts = append(parts, h.hosts[j]+"="+[...]string{"absent", "pass", "fail"}[s])
+			parts = append(parts, h.hosts[j]+"="+[...]string{"absent", "pass", "fail", "timeout(returns ctx error)", "timeout(answers ok after the deadline)"}[s])
 		}
 		out[i] = strings.Join(parts, " ")
 	}
@@ -217,12 +266,18 @@ type outcome struct {
 	empty      int
 	rejoins    int
 	flips      int
+	timeouts   int
+	ambiguous  bool // watchdog: an immediate answer may have raced the short deadline
 }
 
 func runHistory(h *history) outcome {
 	var out outcome
 	chk := newChecker()
-	f := healthcheck.NewFilter(healthcheck.FilterConfig{Fails: h.fails, Passes: h.passes, Timeout: time.Hour}, chk)
+	tmo := time.Hour
+	if h.timeouts {
+		tmo = shortTimeout
+	}
+	f := healthcheck.NewFilter(healthcheck.FilterConfig{Fails: h.fails, Passes: h.passes, Timeout: tmo}, chk)
 	m := newModel(h.fails, h.passes)
 	report := func(sig string, round int, host string, list []string, got []string, exp []string) {
 		out.findings = append(out.findings, finding{sig, map[string]interface{}{
@@ -233,16 +288,47 @@ func runHistory(h *history) outcome {
 	for ri, rd := range h.rounds {
 		var list []string
 		fail := map[string]bool{}
+		slow := map[string]uint8{}
 		for j, s := range rd {
 			if s != 0 {
 				list = append(list, h.hosts[j])
-				if s == 2 {
-					fail[h.hosts[j]] = true
+				if s >= 2 {
+					fail[h.hosts[j]] = true // a timed-out check is exactly one failed check
+				}
+				if s >= symTimeoutCtx {
+					slow[h.hosts[j]] = s
+					out.timeouts++
 				}
 			}
 		}
 		chk.arm(fail)
+		if h.timeouts {
+			chk.armSlow(slow)
+		}
+		began := time.Now()
 		got := f.Run(stringset.New(list...))
+		if h.timeouts {
+			if len(slow) == 0 && time.Since(began) > ambiguousAfter {
+				out.ambiguous = true
+			}
+			// the abandoned late checks answer now; wait for them so that nothing of
+			// this round is still in flight when the next round starts
+			chk.mu.Lock()
+			rel, wg := chk.lateRelease, chk.lateWG
+			amb := chk.ambiguous
+			chk.mu.Unlock()
+			close(rel)
+			wg.Wait()
+			if len(slow) > 0 {
+				time.Sleep(3 * time.Millisecond) // lets a filter that mishandles the late answer show it
+			}
+			if amb {
+				out.ambiguous = true
+			}
+			if out.ambiguous {
+				return finish(&out, m)
+			}
+		}
 		out.runs++
 		obs := chk.observed()
 
@@ -336,12 +422,13 @@ func finish(out *outcome, m *model) outcome {
 // enumeration describes an exhaustive family: per round every host draws from
 // its own alphabet.
 type enumeration struct {
-	name   string
-	hosts  []string
-	alpha  [][]uint8 // per host: allowed symbols
-	length int
-	fails  int
-	passes int
+	name     string
+	hosts    []string
+	alpha    [][]uint8 // per host: allowed symbols
+	length   int
+	fails    int
+	passes   int
+	timeouts bool
 }
 
 func (e *enumeration) size() int {
@@ -357,7 +444,7 @@ func (e *enumeration) size() int {
 }
 
 func (e *enumeration) nth(i int) *history {
-	h := &history{fails: e.fails, passes: e.passes, hosts: e.hosts}
+	h := &history{fails: e.fails, passes: e.passes, hosts: e.hosts, timeouts: e.timeouts}
 	h.id = fmt.Sprintf("%s/F%dP%d/len%d/#%d", e.name, e.fails, e.passes, e.length, i)
 	for r := 0; r < e.length; r++ {
 		rd := make([]uint8, len(e.hosts))
@@ -434,7 +521,7 @@ func TestC23(t *testing.T) {
 	run := ev.Start(t, "C23", "exploration",
 		"Histories = per round and host one of {absent, present+check passes, present+check fails}. Exhaustive families (every sequence up to the stated length): "+
 			"E9 two hosts with the full alphabet; E6 a subject host with the full alphabet next to a companion that is present(passing) or absent; "+
-			"E3 a subject host with the full alphabet next to an always-present companion (longer histories for larger Fails/Passes); E27 three hosts (thorough). Lengths: quick E9=4 (7 settings), E6=4-5, E3=7; thorough E9=4-5, E6=6 (more configs), E3=9-10 (more configs), E27=3. "+
+			"E3 a subject host with the full alphabet next to an always-present companion (longer histories for larger Fails/Passes); E27 three hosts (thorough); ET a subject host drawing from {pass, fail, check times out and returns the context error, check answers OK after the deadline} with a real 100ms check timeout. Lengths: quick E9=4 (7 settings), E6=4-5, E3=7; thorough E9=4-5, E6=6 (more configs), E3=9-10 (more configs), E27=3. "+
 			"Fails/Passes range over 1..4. Plus PRNG streaky histories with 1-4 hosts, length 6-14. The real Filter.Run result is compared with the model after every round. "+
 			"A history is non-trivial when, in the model, some host changed health state or some host left and rejoined.")
 	defer run.Finish()
@@ -459,7 +546,7 @@ func TestC23(t *testing.T) {
 			if !quick && ((f <= 2 && p <= 2) || (f == 3 && p == 2) || (f == 2 && p == 3)) {
 				l = 5
 			}
-			enums = append(enums, &enumeration{"E9-two-hosts", two, [][]uint8{full, full}, l, f, p})
+			enums = append(enums, &enumeration{"E9-two-hosts", two, [][]uint8{full, full}, l, f, p, false})
 		}
 	}
 	for f := 1; f <= 3; f++ {
@@ -478,7 +565,7 @@ func TestC23(t *testing.T) {
 					l = 5
 				}
 			}
-			enums = append(enums, &enumeration{"E6-subject+optional-companion", two, [][]uint8{full, passOrNo}, l, f, p})
+			enums = append(enums, &enumeration{"E6-subject+optional-companion", two, [][]uint8{full, passOrNo}, l, f, p, false})
 		}
 	}
 	for f := 1; f <= 4; f++ {
@@ -495,13 +582,23 @@ func TestC23(t *testing.T) {
 			if !quick && f == 3 && (p == 2 || p == 3) {
 				l = 10
 			}
-			enums = append(enums, &enumeration{"E3-subject+constant-companion", two, [][]uint8{full, passOnly}, l, f, p})
+			enums = append(enums, &enumeration{"E3-subject+constant-companion", two, [][]uint8{full, passOnly}, l, f, p, false})
 		}
 	}
 	if !quick {
 		for _, fp := range [][2]int{{1, 1}, {2, 1}, {1, 2}, {2, 2}} {
-			enums = append(enums, &enumeration{"E27-three-hosts", three, [][]uint8{full, full, full}, 3, fp[0], fp[1]})
+			enums = append(enums, &enumeration{"E27-three-hosts", three, [][]uint8{full, full, full}, 3, fp[0], fp[1], false})
 		}
+	}
+	// checks that exceed FilterConfig.Timeout (real 100ms timeout; verdicts do not depend on
+	// timing: a timed-out check is one failed check, late answers are awaited before the next round)
+	withTimeouts := []uint8{1, 2, symTimeoutCtx, symTimeoutLate}
+	for _, fp := range [][2]int{{2, 1}, {2, 2}, {3, 2}} {
+		l := 3
+		if !quick {
+			l = 4
+		}
+		enums = append(enums, &enumeration{"ET-subject-with-check-timeouts+constant-companion", two, [][]uint8{withTimeouts, passOnly}, l, fp[0], fp[1], true})
 	}
 	nRandom := run.N(5000, 100000)
 
@@ -513,6 +610,15 @@ func TestC23(t *testing.T) {
 	}
 	eval := func(order int, h *history) {
 		o := runHistory(h)
+		if o.ambiguous {
+			run.Count("timeout_histories_repeated_after_slow_round", 1)
+			o = runHistory(h)
+		}
+		if o.ambiguous {
+			run.Inconclusive(h.id + ": an immediate check answer came close to the 100ms filter timeout twice (machine overloaded?); history not judged")
+			return
+		}
+		run.Count("check_timeouts_scripted", int64(o.timeouts))
 		run.Case(h.id+"|"+strings.Join(h.render(), ";"), o.nontrivial)
 		totals.Lock()
 		totals.runs += int64(o.runs)
